@@ -295,6 +295,7 @@ pub struct Ctx {
     pub trace: Option<std::fs::File>,
     pub max_samples: usize,
     pub max_failures: usize,
+    pub per_category: usize,
 }
 
 impl Ctx {
@@ -313,6 +314,7 @@ impl Ctx {
             trace: None,
             max_samples: 3,
             max_failures: 6,
+            per_category: 2,
         }
     }
 
@@ -369,7 +371,7 @@ impl Ctx {
     /// Record a failure (bounded per category so one defect does not flood the report).
     pub fn record(&mut self, case: Value, f: &Fail) {
         let same = self.failures.iter().filter(|r| r.category == f.category).count();
-        if same >= 2 || self.failures.len() >= self.max_failures {
+        if same >= self.per_category || self.failures.len() >= self.max_failures {
             return;
         }
         self.failures.push(FailureRec {
